@@ -155,7 +155,8 @@ def check_a(ck, repo):
         label = f"[minmax={minmax}, {' and '.join(t if pol else 'not ' + t for t, pol in pre.conds) or 'always'}]"
         # zero-initialised accumulator
         z = [(k, _t(v)) for k, v in pre.named_stores.items() if k.replace(".iloc", "") == "cor[:, :]"]
-        ck.verdict(len(z) == 1 and z[0][1] in ("0.0", "0"), "C18.a", fi, f"{label} accumulator {cor} zero-filled: {z}", "accumulator zero-initialised", "the accumulator does not start from zero")
+        born_zero = cor is not None and cor.replace(" ", "").startswith(("numpy.zeros(", "numpy.zeros_like(")) and not z
+        ck.verdict(born_zero or (len(z) == 1 and z[0][1] in ("0.0", "0")), "C18.a", fi, f"{label} accumulator {cor} zero-filled: {z}", "accumulator zero-initialised", "the accumulator does not start from zero")
         normal = [p for p in inner if p.ret is None]
         if skips:
             sk = skips[0]
@@ -219,7 +220,11 @@ def check_a(ck, repo):
             okm = okm and isinstance(r, ast.Tuple) and len(r.elts) == 3
         else:
             okm = okm and not isinstance(r, ast.Tuple)
-        ck.verdict(okm, "C18.a", fi, f"{label} returns {_t(r)[:60]}", "sum of `draws` terms divided by `draws`: the mean stays in [0, 1] and between min and max", "the accumulator is not divided by the number of draws that were added")
+        div_ok = isinstance(first, ast.BinOp) and isinstance(first.op, ast.Div) and _t(first.right) == draws
+        if not okm and div_ok and _t(first.left) != cor and (isinstance(r, ast.Tuple) and len(r.elts) == 3) == bool(minmax):
+            ck.unknown("C18.a", fi, f"{label} returns {_t(r)[:60]}", f"the value divided by `draws` is {_t(first.left)[:50]}, not the accumulator itself (a conversion or relabelling in between is not followed)")
+        else:
+            ck.verdict(okm, "C18.a", fi, f"{label} returns {_t(r)[:60]}", "sum of `draws` terms divided by `draws`: the mean stays in [0, 1] and between min and max", "the accumulator is not divided by the number of draws that were added")
 
 
 def _parents(n):
@@ -331,7 +336,14 @@ def check_b(ck, repo):
         cf = {}
         for minmax, top, pre, env, inner, skips in runs:
             cf[(f"hasattr({df}, 'iloc')", True) in pre.conds] = _t(env.get("cor", ""))
-        ck.verdict(cf.get(True) == f"{df}.corr()" and cf.get(False) == f"numpy.corrcoef({df}, rowvar=False)", "C18.b", fi, f"containers {cf}", "square matrix with one row/column per variable (labels kept for frames)", "the result container is not a square per-variable matrix in both branches")
+        sq = (f"{df}.corr()", f"numpy.corrcoef({df}, rowvar=False)")
+        shaped = [f"numpy.zeros({t_}.shape)" for t_ in sq] + [f"numpy.zeros_like({t_})" for t_ in sq]
+        if cf.get(True) in shaped or cf.get(False) in shaped:
+            # an array with the shape of the correlation matrix; the labels of a frame are put back
+            # by code this rule does not follow
+            ck.unknown("C18.b", fi, f"containers {cf}", "the result container is an unlabelled array shaped like the correlation matrix: whether the labels of a DataFrame are restored is not decided")
+        else:
+          ck.verdict(cf.get(True) == f"{df}.corr()" and cf.get(False) == f"numpy.corrcoef({df}, rowvar=False)", "C18.b", fi, f"containers {cf}", "square matrix with one row/column per variable (labels kept for frames)", "the result container is not a square per-variable matrix in both branches")
     else:
         ck.unknown("C18.b", fi, "frame / array", f"branches found: {sorted(by_kind)}")
     # input never written
